@@ -4,6 +4,7 @@ from rules import v1model, C16 as C16mod
 from spec import tables
 
 LEVEL = 'other'
+FIXTURES = ['F7', 'F3']
 A1, H1 = tables.V1_ADDR, tables.V1_HEADER
 WIDTH = {'std::net::Ipv4Addr': 15, 'std::net::Ipv6Addr': 39, 'u16': 5}
 
